@@ -73,6 +73,8 @@ def seq_pipeline(ctx, w, tests, invs, module="SodTrace", dev=(), label="seq"):
     log("  [%s] %d tests, %d events: run %.1fs, TLC validation %.1fs (%d JVM runs, %d states)" % (label, len(tests), nev, t2 - t1, t3 - t2, runs, states))
     byid = {t["id"]: t for t in tests}
     for f in failures:
+        if (f.event or {}).get("ev") == "hang" and not confirm_hang(ctx, w, binp, byid.get(f.test_id), timeout="240s"):
+            continue          # stopped by the watchdog once, completes when re-executed alone: machine load
         record_failure(ctx, w, f, byid.get(f.test_id), invs, module)
 
 
@@ -130,8 +132,23 @@ def pair_pipeline(ctx, w, tests, variants, label="pair"):
             (label, vi, json.dumps(vt[0]["cfg"]), len(vt), t2_ - t1, time.time() - t2_, runs, states))
         byid = {t["id"]: t for t in tests}
         byid2 = {t["id"]: t for t in vt}
+        # a test the progress watchdog stopped on either side differs from its twin for that reason alone: a verdict only
+        # if it is stopped again when re-executed alone
+        stopped = {}
+        for which, shards_ in (("base", base), ("variant", other)):
+            for _, tp in shards_:
+                cur = None
+                for line in open(tp):
+                    if '"ev":"reset"' in line[:20]:
+                        cur = json.loads(line).get("id")
+                    elif '"ev":"hang"' in line[:20]:
+                        stopped[cur] = which
         for f in failures:
             f.test_b = byid2.get(f.test_id)
+            if f.test_id in stopped:
+                t_ = byid.get(f.test_id) if stopped[f.test_id] == "base" else byid2.get(f.test_id)
+                if not confirm_hang(ctx, w, binp, t_, timeout="240s"):
+                    continue
             record_failure(ctx, w, f, byid.get(f.test_id), ["Conf_C12"], "SodPair")
     for t in tests:
         sig = hashlib.sha256(json.dumps(t["ops"], sort_keys=True).encode()).hexdigest()
@@ -240,7 +257,7 @@ def check_C01(ctx, w):
     tests += rnd_tests(ctx, ctx.q(150, 3000), nops=ctx.q(30, 50))
     tests += sim_tests(ctx, w, "sim", ctx.q(64, 1600), slots=3, kvals=3, avals=2, maxbatch=2, maxops=ctx.q(8, 12), bfilter="PairBatch", get=True)
     # Drop + Create on the live handle, and Flush(o) of single objects, at every position of the bounded histories
-    tests += mc_tests(ctx, w, "dr", slots=2, kvals=2, avals=1, maxbatch=1, maxops=ctx.q(4, 5), bfilter="NoBatch", get=True, drop=True, flushone=True, limit=ctx.q(2000, 30000))
+    tests += mc_tests(ctx, w, "dr", slots=2, kvals=2, avals=1, maxbatch=1, maxops=ctx.q(4, 5), bfilter="NoBatch", get=True, drop=True, flushone=True, repair=True, limit=ctx.q(2500, 40000))
     tests += aux_tests(ctx, ctx.q(100, 1500), mc=ctx.rng.sample(tests, min(len(tests), ctx.q(300, 3000))), nops=ctx.q(25, 40))
     # Create on the populated collection with other cache / async settings (one in three also asking for the opposite compression)
     # (short flusher timeout: the flusher goroutine of a closed handle only exits once its timeout has elapsed)
@@ -584,6 +601,34 @@ def check_C08(ctx, w):
         if sum(1 for th in t["threads"] if any(o["op"] in ("put", "many", "del", "delall", "delq") for o in th)) >= 2:
             ctx.nontrivial.add(t["id"])
     ctx.samples.append({"history": tests[0]["id"], "cfg": tests[0]["cfg"], "threads": tests[0]["threads"]})
+    # Drop + Create racing with writers and readers, schedule perturbed at the file-system calls: judged by the final state
+    dt = gen.drop_conc_tests(uni, ctx.rng, n=ctx.q(48, 1200), reps=ctx.q(12, 18))
+    dshards = vlib.run_harness(binp, dt, w.sub("run-drop"), per_test_timeout="20s", max_hangs=2)
+    dbyid = {t["id"]: t for t in dt}
+    nd = 0
+    for i, (part, tp) in enumerate(dshards):
+        cfg = 'SPECIFICATION Spec\nCONSTANTS\n  TraceFile = "%s"\nINVARIANTS NoPanic FinalOK\nPOSTCONDITION TraceAccepted\nCHECK_DEADLOCK FALSE\n' % tp
+        r = vlib.tlc("SodFinal", cfg, w.sub("val-drop-%d" % i), workers=1, timeout=300, heap="2g")
+        ctx.trace_states += r.distinct
+        if not r.ok() and not (r.violated or r.post_failed):
+            raise vlib.Inconclusive("SodFinal could not be evaluated (specification or tool error, not a verdict):\n" + r.out[-2000:])
+        if not r.ok():
+            # locate the test: the line TLC stopped at
+            ll = r.last_l() or r.distinct
+            lines = open(tp).read().splitlines()
+            cur = None
+            for k, line in enumerate(lines[: max(1, ll - 1)]):
+                if '"ev":"reset"' in line[:20]:
+                    cur = json.loads(line).get("id")
+            e = json.loads(lines[ll - 2]) if 2 <= ll <= len(lines) + 1 else {}
+            if e.get("ev") == "hang" and not confirm_hang(ctx, w, binp, dbyid.get(cur), timeout="60s"):
+                continue
+            nd += 1
+            f = vlib.Failure(cur, (r.violated or ["FinalOK"])[0], ll - 2, e, lines[max(0, ll - 12): ll], r.out[-1500:])
+            record_failure(ctx, w, f, dbyid.get(cur), ["FinalOK"], "SodFinal")
+    ctx.tests += len(dt)
+    ctx.extra_cov["drop_histories_final_state"] = len(dt)
+    log("  [drop] %d concurrent histories with Drop + Create among the calls, final state judged by SodFinal: %d rejected" % (len(dt), nd))
     # memory part: race detector
     rb = vlib.build(race=True)
     nr = ctx.q(600, 40000)
@@ -854,7 +899,7 @@ def check_C10(ctx, w):
     # Flush(o) / FlushAndCommit(o) of single objects at every position of every history of the bounded model (all settings; the
     # argument in three spellings), each followed by the sweeps and the close + reopen of the model
     # and Drop + Create on the live handle: nothing pending or cached of the dropped database may come back
-    tests += mc_tests(ctx, w, "f1_", slots=2, kvals=2, avals=1, maxbatch=1, maxops=ctx.q(4, 5), bfilter="NoBatch", get=False, flushone=True, drop=True, cfgs="AllCfgs", limit=ctx.q(3000, 30000))
+    tests += mc_tests(ctx, w, "f1_", slots=2, kvals=2, avals=1, maxbatch=1, maxops=ctx.q(4, 5), bfilter="NoBatch", get=False, flushone=True, drop=True, repair=True, cfgs="AllCfgs", limit=ctx.q(3500, 40000))
     # Create again on the same handle with other settings (asynchronous before and after): the flusher of the new settings takes over
     tests += mc_tests(ctx, w, "sw_", slots=2, kvals=2, avals=1, maxbatch=1, maxops=ctx.q(4, 5), bfilter="NoBatch", get=False, flusher=True, switch=True, thr=2, tmo=2,
                       cfgs="AsyncCfgs", limit=ctx.q(1500, 15000), convert_kw=dict(thr=2, tmo_ms=200, vclock=True))
@@ -882,6 +927,7 @@ CONSTANTS
   WithHandle = FALSE
   WithFlushOne = FALSE
   WithDrop = TRUE
+  WithRepair = FALSE
   Dev = {%(dev)s}
   BatchFilter <- NoBatch
 VIEW view
@@ -1046,9 +1092,9 @@ META = {
                 text="SnapshotOK is an invariant of the design model, which also enumerates (operator, probe) x up to 2 later writes; on the real code every search is evaluated twice at the same instant, one twin collected at once and one after the writes: TLC checks ids subset of the evaluation-time matches, no duplicates, every undeleted match present, an error only if a match was deleted"),
 }
 META.update({
-    "C05": dict(level="fault_enumeration", technique="file-system calls of every mutating call recorded on the real code; every crash prefix (writes torn into truncated / half / full) materialised and recovered by the real code; TLC validates CrashOK of SodTrace on each recovery observation",
-                text="exhaustive over the crash points of each explored history (process-crash model: completed system calls persist in order); TLC judges readable files, old-or-new per object, acknowledged objects intact, detected-or-agreeing, Repair converges and touches no file, state stable across Close and reload; one known finding (stale index after a crashed update) is modelled as the named deviation StaleIndex"),
-    "C11": dict(level="fault_enumeration", technique="every subset of file / index-entry / schema damage applied to small databases of the real code, recovery observed, TLC validates DamageOK of SodTrace",
+    "C05": dict(level="fault_enumeration", technique="file-system calls of every mutating call recorded on the real code; every crash prefix (writes torn into truncated / half / full) materialised and recovered by the real code; TLC validates CrashOK / CrashAsyncOK of SodTrace on each recovery observation; design level: spec/SodDisk.tla (synchronous protocol) and spec/SodDiskAsync.tla (asynchronous protocol: deletes, commits, flushes one file at a time in any order) model every call as its file-system steps and judge every reachable state as a crash point",
+                text="exhaustive over the crash points of each explored history (process-crash model: completed system calls persist in order); TLC judges readable files, old-or-new per object, acknowledged objects intact, detected-or-agreeing, Repair converges and touches no file, state stable across Close and reload; asynchronous configurations are enumerated at the steps of deletes, flushes, commits and Close; the known findings are named deviations (StaleIndex, AsyncStaleIndex, AsyncUniqueClash) which the design models must exhibit when switched off and which explain every bad crash point of the bounded design when switched on"),
+    "C11": dict(level="fault_enumeration", technique="every subset of file / index-entry / schema damage applied to small databases of the real code, recovery observed, TLC validates DamageOK of SodTrace; design level spec/SodRepair.tla (TLC, and TLAPS proofs for arbitrary constants in spec/proofs)",
                 text="exhaustive (thorough tier) over subsets of removed files x removed index entries x added files x removed schema on databases of 0..3 objects; TLC checks corruption reported by first load and by Control iff indexed ids differ from file ids, Repair restores agreement without touching files, and the database keeps working"),
     "C12": dict(level="model_checking", technique="the same generated tests (model transitions + random histories + the argument battery) executed under a base and a variant configuration; TLC validates the pair of recordings event by event against SodPair",
                 text="RefOK of the design model quantifies over cache/async; on the real code every test runs under sync/no-cache/plain-JSON/indexed and under cache, async, cache+async+extension, gzip+lower-case names, and the plain struct (fields not indexed), and TLC demands equal results (sets where no order is promised), equal error classes (invalid pattern, mistyped probe, unknown operator), equal Exist answers and equal Control once nothing is pending"),
@@ -1060,13 +1106,13 @@ META.update({
                 text="argument part exhaustive over 13 fields x 11 operators x 15 value kinds (+ invalid patterns, unknown / partial paths, unsearchable fields) on empty / non-empty, indexed / plain collections; file part (thorough: exhaustive) truncation at every length, every single-bit flip, every JSON node replaced by 12 other values for schema.json and an object file (plain and gzip), 14 stray directory entries, each followed by a 20-call battery on fresh handles: never a panic or hang, never objects for a malformed query"),
 })
 META.update({
-    "C10": dict(level="model_checking", technique=TECH + "; the flusher's time.Sleep is rewritten to a virtual clock so that TLC-enumerated interleavings of calls, ticks and flusher polls are replayed deterministically",
+    "C10": dict(level="model_checking", technique=TECH + "; the flusher's time.Sleep is rewritten to a virtual clock so that TLC-enumerated interleavings of calls, ticks and flusher polls are replayed deterministically; Flush(o), Drop, Repair on a live handle and a second collection are actions / events of the models (SodImpl, SodMulti = two instances of SodImpl synchronised on Close, Drop and the clock; Conf_X)",
                 text="PendingOK / FilesOK / ClosedDurable / FlushedDurable are invariants and action properties of the async design model (TLC, thresholds 1..2, timeouts 1..2); every history of that model is replayed with the virtual clock and TLC checks on the recorded trace: reads right after an accepted async write, after each tick at which the threshold or the timeout was reached everything accepted is on disk and the schema committed, the same after Close / FlushAllAndCommit (files only after FlushAll), a deleted pending object never on disk, the flusher exists"),
     "C17": dict(level="model_checking", technique=TECH + "; deviation-guided generation (the model explored with the named deviations switched on yields the histories that tell a faulty switch apart); declaration pairs enumerated by the driver and judged by TLC (ShapeOK)",
                 text="settings part: Switch is an action of the design model (RefOK / PendingOK across all 12 ordered pairs of cache/async settings, with flusher and clock); every history with a switch is replayed with the virtual clock and followed by close + reopen; shape part: all ordered pairs of 10 declarations of the same type name (field added / removed / retyped / nested, index, unique, case constraint changed, identical) x 3 storage configurations + extension change: every operation refused with the documented error and the directory byte-identical, compatible Create idempotent and data preserving"),
 })
 META.update({
-    "C08": dict(level="model_checking", technique="concurrent executions of the real code recorded as invocation / return histories; TLC searches a linearization of every history against the abstract map (spec/SodLin.tla: Invoke / Linearize / Return, searches as two calls); the same programs run under the Go race detector with no driver-side synchronisation",
+    "C08": dict(level="model_checking", technique="concurrent executions of the real code recorded as invocation / return histories; TLC searches a linearization of every history against the abstract map (spec/SodLin.tla: Invoke / Linearize / Return, searches as two calls); the same programs run under the Go race detector with no driver-side synchronisation; race model: accesses to shared fields extracted from the source, lock sets computed by TLC on spec/SodLock.tla (T = 1), pairs outside a justified baseline steer a larger race-detector corpus; concurrent Drop + Create judged by the final state (spec/SodFinal.tla)",
                 engine="tlc-lin",
                 text="result part: TLC decides, for every recorded history of 3-4 goroutines, whether some order of linearization points respecting real-time order explains every returned result and the final state (exhaustive search over linearization points per history); memory part: the race detector's report on real runs of the same generator (plus And/Or chains, flushes, Control, AssignIndex, settings switches, first access after reopen, active flusher) is the observation; any report or goroutine panic is a violation"),
 })
